@@ -470,6 +470,105 @@ Theorem listing_rows :
   = [ (api [Lit "bulk"; Lit "cas"; Lit "issues"], Some (F CaRead FEntry)); (api [Lit "cas"], Some (F CaRead FEntry)) ]%string.
 Proof. vm_compute. reflexivity. Qed.
 
+(** * Roles limited to CAs: the scope is the literal list of handles *)
+
+(** A role of the configuration file with [cas = [...]] holds a permission on CA [h] iff [h] itself - the same
+    string, byte for byte - is in the list (roles.rs:91-102 keys the table by the handle as written,
+    roles.rs:136-146 looks the addressed handle up unchanged; [MyHandle] compares as a string). *)
+Theorem scoped_role_exact : forall s cas p h,
+  is_allowed (with_resources s cas) p (Some h) = true <-> In h cas /\ has s p = true.
+Proof.
+  intros s cas p h. destruct (with_resources_spec s cas p h) as [-> _].
+  rewrite andb_true_iff, existsb_exists. split.
+  - intros [[x [Hx He]] Hs]. apply String.eqb_eq in He. subst x. split; assumption.
+  - intros [Hi Hs]. split; [|exact Hs]. exists h. split; [exact Hi|apply String.eqb_refl].
+Qed.
+
+(** Handles that differ only in the case of letters, or of which one is a prefix of the other, are different CAs. *)
+Example scoped_role_case_sensitive :
+  let ro := with_resources ANY ["alice"]%string in
+  is_allowed ro CaRead (Some "alice"%string) = true
+  /\ is_allowed ro CaRead (Some "ALICE"%string) = false
+  /\ is_allowed ro CaRead (Some "Alice"%string) = false
+  /\ is_allowed ro CaRead (Some "alice2"%string) = false
+  /\ is_allowed ro CaRead (Some "alic"%string) = false
+  /\ listing_of (AuthRole ro) (F CaRead FEntry) ["ALICE"; "Alice"; "alice"; "alice2"]%string = ["alice"]%string
+  /\ authorize spec_routes true (AuthRole ro) (mkReq MDELETE ["api"; "v1"; "cas"; "alice"]%string) = Served
+  /\ authorize spec_routes true (AuthRole ro) (mkReq MDELETE ["api"; "v1"; "cas"; "ALICE"]%string) = Forbidden
+  /\ authorize spec_routes true (AuthRole ro) (mkReq MGET ["api"; "v1"; "cas"; "alice2"; "routes"]%string) = Forbidden.
+Proof. vm_compute. repeat split. Qed.
+
+(** No route under /api/v1/cas/{ca} is served to a scoped role when {ca} is not literally in its list. *)
+Theorem scoped_role_route_refused : forall tb s cas q r,
+  find_route spec_routes q = Some r -> per_ca r = true ->
+  ~ In (nth 3 (q_path q) ""%string) cas ->
+  authorize spec_routes tb (AuthRole (with_resources s cas)) q = Forbidden \/
+  authorize spec_routes tb (AuthRole (with_resources s cas)) q = NotFound.
+Proof.
+  intros tb s cas q r Hf Hp Hn. pose proof (find_route_some _ _ _ Hf) as [Hin _].
+  pose proof per_ca_rows_b as P. rewrite forallb_forall in P. specialize (P r Hin). rewrite Hp in P. simpl in P.
+  apply existsb_exists in P. destruct P as [g [Hg He]]. apply gate_eqb_eq in He. subst g.
+  unfold authorize. rewrite Hf. destruct (rt_testbed r && negb tb); [right; reflexivity|left].
+  destruct (forallb (gate_ok (AuthRole (with_resources s cas)) q) (rt_gates r)) eqn:Fa; [|reflexivity].
+  exfalso. rewrite forallb_forall in Fa. specialize (Fa _ Hg). unfold gate_ok in Fa. simpl in Fa.
+  change (Pos.to_nat 3) with 3%nat in Fa.
+  apply (proj1 (scoped_role_exact s cas CaRead _)) in Fa. exact (Hn (proj1 Fa)).
+Qed.
+
+Example scoped_role_route_refused_nonvacuous :
+  let q := mkReq MPOST ["api"; "v1"; "cas"; "Alice"; "routes"]%string in
+  (exists r, find_route spec_routes q = Some r /\ per_ca r = true)
+  /\ ~ In (nth 3 (q_path q) ""%string) ["alice"; "ALICE"; "alice2"]%string.
+Proof.
+  split; [eexists; split; vm_compute; reflexivity|].
+  simpl. intros [H|[H|[H|[]]]]; discriminate.
+Qed.
+
+(** The listings show a scoped role exactly the CAs of its list (that exist), provided its set has CaRead. *)
+Theorem scoped_listing_exact : forall s cas all h,
+  In h (listing_of (AuthRole (with_resources s cas)) (F CaRead FEntry) all)
+  <-> In h all /\ In h cas /\ has s CaRead = true.
+Proof.
+  intros. rewrite listing_filtered.
+  change (auth_allows (AuthRole (with_resources s cas)) CaRead (Some h)) with (is_allowed (with_resources s cas) CaRead (Some h)).
+  rewrite scoped_role_exact. tauto.
+Qed.
+
+(** * Testbed routes are served in testbed mode and in no other configuration *)
+
+Theorem testbed_served_is_testbed_mode :
+  (forall cfg, testbed_served cfg = testbed_on cfg) /\ (forall ta tb, testbed_served (mkCfg ta tb) = tb).
+Proof. split; reflexivity. Qed.
+
+Lemma testbed_rows_open_b : forallb (fun r => negb (rt_testbed r) || is_public r) spec_routes = true.
+Proof. vm_compute. reflexivity. Qed.
+
+(** Whoever asks, with whatever credentials: a route under /testbed is served iff the [testbed] section is present;
+    [ta_support_enabled] does not enter. *)
+Theorem testbed_routes_iff_testbed_mode : forall cfg a q r,
+  find_route spec_routes q = Some r -> rt_testbed r = true ->
+  (authorize spec_routes (testbed_served cfg) a q = Served <-> cfg_testbed cfg = true)
+  /\ (cfg_testbed cfg = false -> authorize spec_routes (testbed_served cfg) a q = NotFound).
+Proof.
+  intros [ta tb] a q r Hf Ht. pose proof (find_route_some _ _ _ Hf) as [Hin _].
+  pose proof testbed_rows_open_b as P. rewrite forallb_forall in P. specialize (P r Hin). rewrite Ht in P. simpl in P.
+  unfold is_public in P. destruct (rt_gates r) as [|g l] eqn:Eg; [|discriminate].
+  unfold authorize, testbed_served, testbed_on. simpl cfg_testbed. rewrite Hf, Ht, Eg.
+  destruct tb; simpl; split; try (split; [reflexivity|reflexivity]); try discriminate; try reflexivity.
+  split; discriminate.
+Qed.
+
+Example testbed_routes_iff_testbed_mode_nonvacuous :
+  let q := mkReq MPOST ["testbed"; "publishers"]%string in
+  let anon := AuthRole role_anonymous in
+  (exists r, find_route spec_routes q = Some r /\ rt_testbed r = true)
+  /\ ta_proxy_on (mkCfg true false) = true
+  /\ authorize spec_routes (testbed_served (mkCfg true false)) anon q = NotFound
+  /\ authorize spec_routes (testbed_served (mkCfg false false)) anon q = NotFound
+  /\ authorize spec_routes (testbed_served (mkCfg false true)) anon q = Served
+  /\ authorize spec_routes (testbed_served (mkCfg true true)) anon q = Served.
+Proof. split; [eexists; split; vm_compute; reflexivity|]. vm_compute. repeat split. Qed.
+
 (** * The oracle is the boolean form of the model: whenever an observation agrees with the model, the
       property holds on it. *)
 Lemma same_set_sub : forall a b x, same_set a b = true -> In x a -> In x b.
